@@ -595,10 +595,10 @@ func genC06(r *fw.Rng, tier string, emit func(fw.Case)) {
 		}
 		emit(fw.Case{Op: "convrace", Args: []string{encodeSession(ws)}})
 	}
-	// long conversation: platform serial numbering (thorough: beyond 65536 for the wrap)
-	long := 1200
+	// long conversation across the wrap of the 16-bit platform serial (65536 replies and a few more)
+	long := 65600
 	if tier == "thorough" {
-		long = 66000
+		long = 132000
 	}
 	{
 		phone := frames.RandPhone(r, false)
